@@ -3,6 +3,7 @@ package main
 // Frame (write-set) inference: which heap classes a function may write, transitively.
 
 import (
+	"go/token"
 	"go/types"
 	"strings"
 
@@ -295,6 +296,15 @@ func (fi *FrameInfo) instrEffects(fr *Frame, in ssa.Instruction, ws map[string]b
 		fi.callEffects(fr, x.Common(), ws, callees)
 	case *ssa.Defer:
 		fi.callEffects(fr, x.Common(), ws, callees)
+	case *ssa.Send:
+		ws["ghost:$sent"] = true
+	case *ssa.Select:
+		ws["ghost:$sent"] = true
+		ws["ghost:$recv"] = true
+	case *ssa.UnOp:
+		if x.Op == token.ARROW {
+			ws["ghost:$recv"] = true
+		}
 	case *ssa.Go:
 		// effect analysis (protects clauses) also follows goroutines started by the function:
 		// what they do happens because of the call
